@@ -14,6 +14,10 @@ the seed.  The model makes every generator the library can read explicit
                                                    dqn.py:251/253 epsilon-greedy)
   env i     `np_random` of sub-environment `i`    (base_class.py:573 -> base_vec_env.py:308 `_seeds[i] = seed + i`
                                                    -> delivered by the next `reset`, dummy_vec_env.py:78)
+  noise     the state inside the action-noise object of the configuration (`OrnsteinUhlenbeckActionNoise.noise_prev`,
+            per sub-noise for `VectorizedActionNoise`): not random by itself, but it survives from whatever used
+            the object before; `_setup_learn` (base_class.py:410) re-initialises it with `action_noise.reset()`
+            before the first step of every `learn()`, which makes it a constant
   obsSpace  `observation_space.np_random`         never seeded by the library
   os        OS entropy (`default_rng()`, a lazily created `np_random`)   can not be seeded
 
@@ -41,6 +45,8 @@ namespace SB3Verif.Seeding
 inductive Origin where
   | seed (s : Nat)
   | ambient (a : Nat)
+  /-- re-initialised to a constant by the library (`action_noise.reset()`) -/
+  | const
   deriving DecidableEq, Repr
 
 /-- abstract PRNG state: origin and number of values taken since -/
@@ -50,7 +56,7 @@ structure Stream where
   deriving DecidableEq, Repr
 
 inductive Gen where
-  | py | np | torch | actSpace | obsSpace | os
+  | py | np | torch | actSpace | obsSpace | os | noise
   | env (i : Nat)
   deriving DecidableEq, Repr
 
@@ -74,6 +80,8 @@ inductive Op where
   | envSeed (s n : Nat)
   /-- `VecEnv.reset()`: sub-env `i` gets `reset(seed=_seeds[i])` (re-seeds iff not `None`), then `_seeds` is cleared -/
   | envReset (n : Nat)
+  /-- `action_noise.reset()`: the state becomes a constant (OS entropy can not be reset) -/
+  | reset (g : Gen)
   /-- a draw site whose values are used: `k` values from generator `g` -/
   | draw (g : Gen) (k : Nat)
   /-- a draw whose values are thrown away (`observation_space.sample()` used for its shape, torch_layers.py:102) -/
@@ -98,6 +106,7 @@ def deliver (st : RngState) (n : Nat) : Gen → Stream
 
 def step (st : RngState) : Op → RngState × List Draw
   | .seed g s => if g = .os then (st, []) else (st.setGen g ⟨.seed s, 0⟩, [])
+  | .reset g => if g = .os then (st, []) else (st.setGen g ⟨.const, 0⟩, [])
   | .envSeed s n => ({ st with pending := fun i => if i < n then some (s + i) else st.pending i }, [])
   | .envReset n => ({ gens := deliver st n, pending := fun i => if i < n then none else st.pending i }, [])
   | .draw g k => (st.advance g k, [⟨g, (st.gens g).origin, (st.gens g).pos, k⟩])
@@ -140,6 +149,7 @@ def Low.bot : Low := ⟨fun _ => false, fun _ => .unknown⟩
 
 def lowStep (L : Low) : Op → Low
   | .seed g _ => if g = .os then L else { L with gens := fun h => if h = g then true else L.gens h }
+  | .reset g => if g = .os then L else { L with gens := fun h => if h = g then true else L.gens h }
   | .envSeed _ n => { L with pend := fun i => if i < n then .some else L.pend i }
   | .envReset n =>
     { gens := fun h =>
@@ -211,6 +221,8 @@ structure Cfg where
 
 /-- observable events of `learn` after `_setup_learn`; their arguments are the data-dependent facts -/
 inductive Ev where
+  /-- `_setup_learn` of a `learn()` call up to `env.reset()`: `action_noise.reset()` -/
+  | learnStart
   /-- `collect_rollouts` up to `callback.on_rollout_start()` -/
   | rolloutStart
   /-- one iteration of the collection loop: `t = num_timesteps` before it, `k` = index in the rollout,
@@ -255,10 +267,20 @@ def predictOps (cfg : Cfg) (branch : Bool) : List Op :=
 def warmup (cfg : Cfg) (t : Nat) : Bool :=
   decide (t < cfg.learningStarts) && !(cfg.useSde && cfg.useSdeAtWarmup)
 
+/-- `action_noise()`: Gaussian noise is stateless; the Ornstein-Uhlenbeck process also reads (and moves) its
+own state `noise_prev` -/
 def noiseOps (cfg : Cfg) : List Op :=
   match cfg.noise with
   | .none => []
-  | _ => [.draw .np cfg.nEnvs]
+  | .normal => [.draw .np cfg.nEnvs]
+  | .ou => [.draw .noise cfg.nEnvs, .draw .np cfg.nEnvs]
+
+/-- `BaseAlgorithm._setup_learn`: `if self.action_noise is not None: self.action_noise.reset()`, for every
+number of envs (several envs: after `VectorizedActionNoise` deep-copied the object, all copies are reset) -/
+def learnStartOps (cfg : Cfg) : List Op :=
+  match cfg.noise with
+  | .none => []
+  | _ => [.reset .noise]
 
 /-- `_sample_action` (off-policy) / `policy.forward` (on-policy) -/
 def actionOps (cfg : Cfg) (t : Nat) (branch : Bool) : List Op :=
@@ -275,6 +297,7 @@ def trainOps (cfg : Cfg) (n : Nat) (single branch : Bool) : List Op :=
   | .ddpg => if branch then [.draw .torch n] else []
 
 def segOps (cfg : Cfg) : Ev → List Op
+  | .learnStart => learnStartOps cfg
   | .rolloutStart => if cfg.useSde then [.draw .torch 2] else []
   | .step t k b ds => sdeResample cfg k ++ actionOps cfg t b ++ envDrawOps cfg 0 ds
   | .rolloutEnd => []
@@ -286,9 +309,14 @@ def eventsOps (cfg : Cfg) : List Ev → List Op
   | [] => []
   | e :: es => segOps cfg e ++ eventsOps cfg es
 
-/-- the whole run: `__init__`, the first `env.reset()` of `_setup_learn`, then the events of `learn` -/
+/-- `_setup_learn` of the first `learn()`: noise reset, then the first `env.reset()` -/
+def firstLearn (cfg : Cfg) (resetDraws : List Nat) : List Op :=
+  learnStartOps cfg ++ segOps cfg (.reset resetDraws)
+
+/-- the whole run: `__init__`, `_setup_learn` of the first `learn()`, then the events of `learn` (later `learn()`
+calls appear as `learnStart` / `reset` events) -/
 def libTrace (cfg : Cfg) (resetDraws : List Nat) (evs : List Ev) : List Op :=
-  construct cfg ++ (segOps cfg (.reset resetDraws) ++ eventsOps cfg evs)
+  construct cfg ++ (firstLearn cfg resetDraws ++ eventsOps cfg evs)
 
 /-- generators a list of operations takes at least one value from -/
 def drawnGens : List Op → List Gen
